@@ -12,7 +12,9 @@
 
   Tie to /repo: the state-name maps are tabulated by `vh gen` from the linked transitioner on every
   run (`Gen.fromDeviceStateFMQ` …) and identified with the model's maps by the `…_is_code` theorems;
-  `commitFMQ` / `commitDirect` / `Dev.step` are tied by the exhaustive correspondence run.
+  `commitFMQ codeCfg` / `commitDirect` / `Dev.step` are tied by the exhaustive correspondence run; the branch
+  of `Commit` for the two events fairmq.go does not implement is, in addition, evaluated by `vh gen` on
+  its whole domain (`Gen.unimplementedFMQ`) and identified with the model by `C16_unimplemented_is_code`.
 
   What the faithful model does NOT satisfy is kept visible as `C16_…_full` and refuted on a witness
   (`C16_finding_…`): see notes/C16.md.
@@ -61,19 +63,31 @@ theorem C16_device_targets_match_occ :
   · intro s e d h
     cases s <;> cases e <;> simp [directNext] at h <;> subst h <;> decide
 
-/-! ## what holds of the code — as it is (`fixed = codeFixed = true`, after the `fix:` commit "FairMQ
-     transitioner stops after a roll-back and sends END from the state the reset reached") and as
-     it was (`fixed = false`): the theorems are proved for both -/
+/-- The branch of `(*FairMQ).Commit` for GO_ERROR and RECOVER, evaluated by `vh gen` on the linked code for
+    every source state (what is reported, which kind of error, how many requests reached the device), IS what
+    the model of the code as it is does: the source state, the error "transition not implemented", no
+    request. (On a tree without the `fix:` commit the table says `nil` and this theorem fails.) -/
+theorem C16_unimplemented_is_code :
+    Gen.unimplementedFMQ =
+      [O2Event.GO_ERROR, O2Event.RECOVER].flatMap fun e => O2State.all.map fun s =>
+        let r := runFMQ codeCfg false e s []
+        (e.name, s.name, nameOrEmpty r.reported, r.err.name, r.steps.length) := by
+  decide
+
+/-! ## what holds of the code — as it is (`codeCfg`, after the `fix:` commits "FairMQ transitioner stops
+     after a roll-back and sends END from the state the reset reached" and "FairMQ transitioner reports
+     GO_ERROR and RECOVER as not implemented instead of as done") and as it was (`legacyCfg`,
+     `originalCfg`): the theorems of this section are proved for every `cfg` -/
 
 /-- IMAGE. Whenever the last request the transitioner issued was answered (or it issued none), the state
     `Commit` reports is exactly `FromDeviceState` of the state the device is really in — whatever
     happened to the earlier requests (refused, error state, lost), for every event, source and script,
     lenient or strict device. -/
-theorem C16_image_partial (fixed strict : Bool) (evt : O2Event) (src : O2State) (script : List Outcome)
-    (h : lastReceived strict (runFMQ fixed strict evt src script) = true) :
-    imageOk o2Of (runFMQ fixed strict evt src script) = true := by
-  have := all_runsFMQ fixed strict evt src (fun r => !lastReceived strict r || imageOk o2Of r)
-    (by cases fixed <;> cases strict <;> cases evt <;> cases src <;> decide) script
+theorem C16_image_partial (cfg : Cfg) (strict : Bool) (evt : O2Event) (src : O2State) (script : List Outcome)
+    (h : lastReceived strict (runFMQ cfg strict evt src script) = true) :
+    imageOk o2Of (runFMQ cfg strict evt src script) = true := by
+  have := all_runsFMQ cfg strict evt src (fun r => !lastReceived strict r || imageOk o2Of r)
+    (by rcases cfg with ⟨_ | _, _ | _⟩ <;> cases strict <;> cases evt <;> cases src <;> decide) script
   simpa [h] using this
 
 /-- IMAGE, DIRECT control mode. -/
@@ -86,11 +100,11 @@ theorem C16_image_direct_partial (strict : Bool) (evt : O2Event) (src : O2State)
 
 /-- SUCCESS. For the five events fairmq.go implements, `err = nil` is returned only with the device in the
     image of the destination — for every script, including those with lost messages. -/
-theorem C16_success_partial (fixed strict : Bool) (evt : O2Event) (src : O2State) (script : List Outcome)
+theorem C16_success_partial (cfg : Cfg) (strict : Bool) (evt : O2Event) (src : O2State) (script : List Outcome)
     (h : implemented evt = true) :
-    successOk fmqOf (dstOf evt) (runFMQ fixed strict evt src script) = true := by
-  have := all_runsFMQ fixed strict evt src (fun r => !implemented evt || successOk fmqOf (dstOf evt) r)
-    (by cases fixed <;> cases strict <;> cases evt <;> cases src <;> decide) script
+    successOk fmqOf (dstOf evt) (runFMQ cfg strict evt src script) = true := by
+  have := all_runsFMQ cfg strict evt src (fun r => !implemented evt || successOk fmqOf (dstOf evt) r)
+    (by rcases cfg with ⟨_ | _, _ | _⟩ <;> cases strict <;> cases evt <;> cases src <;> decide) script
   simpa [h] using this
 
 /-- SUCCESS, DIRECT control mode: unconditionally. -/
@@ -103,12 +117,12 @@ theorem C16_success_direct (strict : Bool) (evt : O2Event) (src : O2State) (scri
     it would have let the transitioner leave: if CONFIGURE / RESET / EXIT end with the device in a state
     without O² name from which its graph accepts RESET DEVICE (resp. INIT TASK), that roll-back was
     requested in that very state and the device did not perform it. -/
-theorem C16_rollback_partial (fixed strict : Bool) (evt : O2Event) (src : O2State) (script : List Outcome)
-    (h : lastReceived strict (runFMQ fixed strict evt src script) = true) :
-    rollbackOk fmqDev o2Of (rollbackEvt evt) (runFMQ fixed strict evt src script) = true := by
-  have := all_runsFMQ fixed strict evt src
+theorem C16_rollback_partial (cfg : Cfg) (strict : Bool) (evt : O2Event) (src : O2State) (script : List Outcome)
+    (h : lastReceived strict (runFMQ cfg strict evt src script) = true) :
+    rollbackOk fmqDev o2Of (rollbackEvt evt) (runFMQ cfg strict evt src script) = true := by
+  have := all_runsFMQ cfg strict evt src
     (fun r => !lastReceived strict r || rollbackOk fmqDev o2Of (rollbackEvt evt) r)
-    (by cases fixed <;> cases strict <;> cases evt <;> cases src <;> decide) script
+    (by rcases cfg with ⟨_ | _, _ | _⟩ <;> cases strict <;> cases evt <;> cases src <;> decide) script
   simpa [h] using this
 
 /-- ROLLBACK, positive form. With a device that performs or refuses requests (no ERROR, no lost message)
@@ -117,34 +131,34 @@ theorem C16_rollback_partial (fixed strict : Bool) (evt : O2Event) (src : O2Stat
     EXIT from CONFIGURED (= RESET, then END) can also end in IDLE after the completed reset, and a CONFIGURE
     whose COMPLETE INIT is refused stays in INITIALIZING DEVICE, from which the device graph offers no
     roll-back (and none is attempted). -/
-theorem C16_rollback_reaches_source (fixed strict : Bool) (evt : O2Event) (src : O2State) (script : List Outcome)
+theorem C16_rollback_reaches_source (cfg : Cfg) (strict : Bool) (evt : O2Event) (src : O2State) (script : List Outcome)
     (hcell : (evt = .CONFIGURE ∧ src = .STANDBY) ∨ ((evt = .RESET ∨ evt = .EXIT) ∧ src = .CONFIGURED))
-    (hcalm : calm (runFMQ fixed strict evt src script) = true)
-    (hrb : acceptsRollback (rollbackEvt evt) (runFMQ fixed strict evt src script) = true) :
-    let r := runFMQ fixed strict evt src script
+    (hcalm : calm (runFMQ cfg strict evt src script) = true)
+    (hrb : acceptsRollback (rollbackEvt evt) (runFMQ cfg strict evt src script) = true) :
+    let r := runFMQ cfg strict evt src script
     (r.final = fmqOf (dstOf evt) ∧ r.err = .nil) ∨ (r.final = fmqOf src ∧ r.err ≠ .nil) ∨
       (evt = .EXIT ∧ r.final = .IDLE ∧ r.err ≠ .nil) ∨
       (evt = .CONFIGURE ∧ r.final = .INITIALIZING_DEVICE ∧ r.err ≠ .nil) := by
-  have key := all_runsFMQ fixed strict evt src
+  have key := all_runsFMQ cfg strict evt src
     (fun r => !(calm r && acceptsRollback (rollbackEvt evt) r) ||
       (decide (r.final = fmqOf (dstOf evt) ∧ r.err = .nil) || (decide (r.final = fmqOf src ∧ r.err ≠ .nil) ||
         (decide (evt = .EXIT ∧ r.final = .IDLE ∧ r.err ≠ .nil) ||
           decide (evt = .CONFIGURE ∧ r.final = .INITIALIZING_DEVICE ∧ r.err ≠ .nil)))))
     (by
-      rcases hcell with ⟨rfl, rfl⟩ | ⟨rfl | rfl, rfl⟩ <;> cases fixed <;> cases strict <;> decide) script
+      rcases hcell with ⟨rfl, rfl⟩ | ⟨rfl | rfl, rfl⟩ <;> rcases cfg with ⟨_ | _, _ | _⟩ <;> cases strict <;> decide) script
   simpa [hcalm, hrb] using key
 
 /-- ALL THREE CLAUSES, FAIRMQ: for an implemented event, if no request was lost and none was answered
     "state mismatch", the call satisfies the full Spec. These are exactly the classes the driver
     reports as `hyp` (`lost_reply`, `stale_src_request`, `unimplemented_event`). -/
-theorem C16_spec_partial (fixed strict : Bool) (evt : O2Event) (src : O2State) (script : List Outcome)
+theorem C16_spec_partial (cfg : Cfg) (strict : Bool) (evt : O2Event) (src : O2State) (script : List Outcome)
     (himpl : implemented evt = true)
-    (hstale : noStale strict (runFMQ fixed strict evt src script) = true)
-    (hloss : noLoss strict (runFMQ fixed strict evt src script) = true) :
-    specFMQ evt (runFMQ fixed strict evt src script) = true := by
-  have := all_runsFMQ fixed strict evt src
+    (hstale : noStale strict (runFMQ cfg strict evt src script) = true)
+    (hloss : noLoss strict (runFMQ cfg strict evt src script) = true) :
+    specFMQ evt (runFMQ cfg strict evt src script) = true := by
+  have := all_runsFMQ cfg strict evt src
     (fun r => !(implemented evt && noStale strict r && noLoss strict r) || specFMQ evt r)
-    (by cases fixed <;> cases strict <;> cases evt <;> cases src <;> decide) script
+    (by rcases cfg with ⟨_ | _, _ | _⟩ <;> cases strict <;> cases evt <;> cases src <;> decide) script
   simpa [himpl, hstale, hloss] using this
 
 /-- ALL CLAUSES, DIRECT: a single verbatim request never names a stale source; if it was not lost the
@@ -163,10 +177,10 @@ theorem C16_spec_direct_partial (strict : Bool) (evt : O2Event) (src : O2State) 
 
 /-- A lenient device (one that does not look at `SrcState`) never produces the `stale_src_request`
     class: with it the only excluded classes are lost replies and the two unimplemented events. -/
-theorem C16_lenient_never_stale (evt : O2Event) (src : O2State) (script : List Outcome) :
-    noStale false (runFMQ false false evt src script) = true :=
-  all_runsFMQ false false evt src (fun r => noStale false r)
-    (by cases evt <;> cases src <;> decide) script
+theorem C16_lenient_never_stale (cfg : Cfg) (evt : O2Event) (src : O2State) (script : List Outcome) :
+    noStale false (runFMQ cfg false evt src script) = true :=
+  all_runsFMQ cfg false evt src (fun r => noStale false r)
+    (by rcases cfg with ⟨_ | _, _ | _⟩ <;> cases evt <;> cases src <;> decide) script
 
 /-- The acceptance rule of client.go doTransition, for every reply shape: the model's `accept` reports no
     error exactly when ok ∧ trigger = EXECUTOR ∧ same event ∧ state = destination. -/
@@ -177,20 +191,20 @@ theorem C16_accept_rule (ok trigExecutor sameEvent stateIsDst : Bool) :
 /-! ## what does NOT hold (full-strength statements and their refutations) -/
 
 /-- FULL image clause, as the property text has it — over every script, lost messages included. FALSE. -/
-def C16_image_full (fixed : Bool) : Prop :=
+def C16_image_full (cfg : Cfg) : Prop :=
   ∀ (strict : Bool) (evt : O2Event) (src : O2State) (script : List Outcome),
-    imageOk o2Of (runFMQ fixed strict evt src script) = true
+    imageOk o2Of (runFMQ cfg strict evt src script) = true
 
 /-- FULL roll-back clause over every script. FALSE. -/
-def C16_rollback_full (fixed : Bool) : Prop :=
+def C16_rollback_full (cfg : Cfg) : Prop :=
   ∀ (strict : Bool) (evt : O2Event) (src : O2State) (script : List Outcome),
-    rollbackOk fmqDev o2Of (rollbackEvt evt) (runFMQ fixed strict evt src script) = true
+    rollbackOk fmqDev o2Of (rollbackEvt evt) (runFMQ cfg strict evt src script) = true
 
 /-- Finding `lost_reply`: when the reply to the last request is lost `Commit` reports `""`, which is no
     state's image, while the device is in a named state (START from CONFIGURED, reply lost: the device is
     RUNNING, `""` is reported); and a lost reply in the middle of CONFIGURE leaves the device in an
     intermediate state (BOUND) that RESET DEVICE would have left, without trying. -/
-theorem C16_finding_lost_reply : ¬ C16_image_full codeFixed ∧ ¬ C16_rollback_full codeFixed := by
+theorem C16_finding_lost_reply : ¬ C16_image_full codeCfg ∧ ¬ C16_rollback_full codeCfg := by
   constructor
   · intro h
     have := h false .START .CONFIGURED [.replyLost]
@@ -201,10 +215,10 @@ theorem C16_finding_lost_reply : ¬ C16_image_full codeFixed ∧ ¬ C16_rollback
 
 /-- FULL image clause restricted to scripts WITHOUT any transport error. Still FALSE against a strict
     device. -/
-def C16_image_noloss_full (fixed : Bool) : Prop :=
+def C16_image_noloss_full (cfg : Cfg) : Prop :=
   ∀ (strict : Bool) (evt : O2Event) (src : O2State) (script : List Outcome),
-    noLoss strict (runFMQ fixed strict evt src script) = true →
-    imageOk o2Of (runFMQ fixed strict evt src script) = true
+    noLoss strict (runFMQ cfg strict evt src script) = true →
+    imageOk o2Of (runFMQ cfg strict evt src script) = true
 
 /-- Finding `stale_src_request`: the transitioner itself sends requests that name a source state the
     device cannot be in — END after the implicit reset of EXIT-from-CONFIGURED still says READY, and
@@ -212,78 +226,124 @@ def C16_image_noloss_full (fixed : Bool) : Prop :=
     `SrcState` (the repository's OCC plugin and OCC library do) answers with a gRPC error, so `""` is
     reported although the device is in IDLE = STANDBY and no message was lost. Witness: EXIT from
     CONFIGURED against a device that performs every request. -/
-theorem C16_finding_stale_src_request : ¬ C16_image_noloss_full false := by
+theorem C16_finding_stale_src_request : ¬ C16_image_noloss_full originalCfg := by
   intro h
   have := h true .EXIT .CONFIGURED [.done, .done, .done] (by decide)
   revert this; decide
 
-/-- FULL success clause over all seven events. FALSE. -/
-def C16_success_full (fixed : Bool) : Prop :=
+/-- FULL success clause over all seven events, every script, both device flavours. FALSE for the code as it
+    was (`C16_finding_unimplemented_event`), TRUE for the code as it is (`C16_success_code`). -/
+def C16_success_full (cfg : Cfg) : Prop :=
   ∀ (strict : Bool) (evt : O2Event) (src : O2State) (script : List Outcome),
-    successOk fmqOf (dstOf evt) (runFMQ fixed strict evt src script) = true
+    successOk fmqOf (dstOf evt) (runFMQ cfg strict evt src script) = true
 
-/-- Finding `unimplemented_event`: GO_ERROR and RECOVER are "not implemented yet" in fairmq.go, yet
-    `Commit` returns `err = nil` (and the source state) without asking the device anything: success is
-    reported with the device not at the destination (GO_ERROR from RUNNING: device RUNNING, dst ERROR). -/
-theorem C16_finding_unimplemented_event : ¬ C16_success_full codeFixed := by
+/-- Finding `unimplemented_event` (REPAIRED in /repo; this is the statement about the code as it was):
+    GO_ERROR and RECOVER are "not implemented yet" in fairmq.go, yet `Commit` returned `err = nil` (and the
+    source state) without asking the device anything: success was reported with the device not at the
+    destination (GO_ERROR from RUNNING: device RUNNING, dst ERROR). -/
+theorem C16_finding_unimplemented_event : ¬ C16_success_full legacyCfg := by
   intro h
   have := h false .GO_ERROR .RUNNING []
   revert this; decide
 
-/-! ## the repair (`fix:` commit in /repo), modelled as `fixed = true` = `codeFixed` -/
+/-! ## the repairs (`fix:` commits in /repo) -/
 
-/-- With the repair (return after a roll-back; END after the implicit reset names IDLE) no request ever
-    names a stale source — against a strict device too — and the full Spec holds for every implemented
-    event whenever no message is lost: `stale_src_request` disappears. -/
-theorem C16_fix_sufficient (strict : Bool) (evt : O2Event) (src : O2State) (script : List Outcome) :
-    noStale strict (runFMQ true strict evt src script) = true ∧
-    (implemented evt = true → noLoss strict (runFMQ true strict evt src script) = true →
-      specFMQ evt (runFMQ true strict evt src script) = true) := by
-  have := all_runsFMQ true strict evt src
+/-- FIRST repair (`stopsAfterRollback`: return after a roll-back; END after the implicit reset names IDLE):
+    no request ever names a stale source — against a strict device too — and the full Spec holds for every
+    implemented event whenever no message is lost: `stale_src_request` disappears. -/
+theorem C16_fix_sufficient (u strict : Bool) (evt : O2Event) (src : O2State) (script : List Outcome) :
+    noStale strict (runFMQ ⟨true, u⟩ strict evt src script) = true ∧
+    (implemented evt = true → noLoss strict (runFMQ ⟨true, u⟩ strict evt src script) = true →
+      specFMQ evt (runFMQ ⟨true, u⟩ strict evt src script) = true) := by
+  have := all_runsFMQ ⟨true, u⟩ strict evt src
     (fun r => noStale strict r && (!(implemented evt && noLoss strict r) || specFMQ evt r))
-    (by cases strict <;> cases evt <;> cases src <;> decide) script
+    (by cases u <;> cases strict <;> cases evt <;> cases src <;> decide) script
   simp only [Bool.and_eq_true, Bool.or_eq_true, Bool.not_eq_true'] at this
   refine ⟨this.1, fun hi hl => ?_⟩
   rcases this.2 with h' | h'
   · rw [hi, hl] at h'; cases h'
   · exact h'
 
+/-- SECOND repair (`refusesUnimplemented`) changes NOTHING but the answer to GO_ERROR and RECOVER: for the five
+    events fairmq.go implements the transitioner is the same program with and without it. -/
+theorem C16_second_repair_touches_only_unimplemented (f : Bool) (evt : O2Event) (src dst : O2State)
+    (h : implemented evt = true) : commitFMQ ⟨f, true⟩ evt src dst = commitFMQ ⟨f, false⟩ evt src dst := by
+  cases evt <;> first | rfl | cases h
+
+/-- What the code as it is answers to the two events it does not implement — for every source state, every
+    script, both device flavours: it asks the device NOTHING (the device stays where it was), reports the
+    source state, and says so with an explicit error; so all three clauses of the Spec hold of these calls. -/
+theorem C16_unimplemented_refused_code (strict : Bool) (evt : O2Event) (src : O2State) (script : List Outcome)
+    (h : implemented evt = false) :
+    runFMQ codeCfg strict evt src script = ⟨some src, .unimplemented, [], fmqOf src⟩ ∧
+    specFMQ evt (runFMQ codeCfg strict evt src script) = true := by
+  have run_eq : runFMQ codeCfg strict evt src script = ⟨some src, .unimplemented, [], fmqOf src⟩ := by
+    cases evt <;> first | rfl | cases h
+  rw [run_eq]
+  exact ⟨rfl, by cases evt <;> cases src <;> first | decide | cases h⟩
+
+/-- **The success clause for the code as it is, in full**: over all seven events, every source state,
+    every script (lost messages included), lenient and strict device, `err = nil` is returned only with the
+    device at the destination (the statement that finding `unimplemented_event` refuted for the code as
+    it was). -/
+theorem C16_success_code : C16_success_full codeCfg := by
+  intro strict evt src script
+  exact all_runsFMQ codeCfg strict evt src (fun r => successOk fmqOf (dstOf evt) r)
+    (by cases strict <;> cases evt <;> cases src <;> decide) script
+
 /-- **The image clause for the code as it is, in full over every script without a lost message**
     (the statement that finding `stale_src_request` refuted for the code as it was). -/
-theorem C16_image_noloss_code : C16_image_noloss_full codeFixed := by
+theorem C16_image_noloss_code : C16_image_noloss_full codeCfg := by
   intro strict evt src script h
-  have := all_runsFMQ true strict evt src (fun r => !noLoss strict r || imageOk o2Of r)
+  have := all_runsFMQ codeCfg strict evt src (fun r => !noLoss strict r || imageOk o2Of r)
     (by cases strict <;> cases evt <;> cases src <;> decide) script
   simp only [Bool.or_eq_true, Bool.not_eq_true'] at this
   rcases this with h' | h'
-  · rw [show codeFixed = true from rfl] at h; rw [h] at h'; cases h'
+  · rw [h] at h'; cases h'
   · exact h'
 
-/-- **All three clauses for the code as it is**: for an implemented event, whenever no message is
-    lost, the full Spec holds — against lenient and strict devices — and the transitioner never
-    names a source state the device cannot be in. -/
+/-- **All three clauses for the code as it is**: for EVERY event (the two unimplemented ones included),
+    whenever no message is lost, the full Spec holds — against lenient and strict devices — and the
+    transitioner never names a source state the device cannot be in. The only hypothesis left is the one of
+    the open finding `lost_reply`. -/
 theorem C16_spec_code (strict : Bool) (evt : O2Event) (src : O2State) (script : List Outcome) :
-    noStale strict (runFMQ codeFixed strict evt src script) = true ∧
-    (implemented evt = true → noLoss strict (runFMQ codeFixed strict evt src script) = true →
-      specFMQ evt (runFMQ codeFixed strict evt src script) = true) :=
-  C16_fix_sufficient strict evt src script
+    noStale strict (runFMQ codeCfg strict evt src script) = true ∧
+    (noLoss strict (runFMQ codeCfg strict evt src script) = true →
+      specFMQ evt (runFMQ codeCfg strict evt src script) = true) := by
+  have := all_runsFMQ codeCfg strict evt src
+    (fun r => noStale strict r && (!noLoss strict r || specFMQ evt r))
+    (by cases strict <;> cases evt <;> cases src <;> decide) script
+  simp only [Bool.and_eq_true, Bool.or_eq_true, Bool.not_eq_true'] at this
+  refine ⟨this.1, fun hl => ?_⟩
+  rcases this.2 with h' | h'
+  · rw [hl] at h'; cases h'
+  · exact h'
 
 /-! ## non-vacuity -/
 
 /-- The hypotheses of `C16_spec_partial` are met by realistic, non-trivial calls: a CONFIGURE whose CONNECT
     is refused and rolled back (6 requests, lenient device), and a complete RESET against a strict device. -/
 example :
-    let r := runFMQ false false .CONFIGURE .STANDBY [.done, .done, .done, .refused, .done, .refused]
+    let r := runFMQ originalCfg false .CONFIGURE .STANDBY [.done, .done, .done, .refused, .done, .refused]
     implemented .CONFIGURE = true ∧ noStale false r = true ∧ noLoss false r = true ∧ r.steps.length = 6 ∧
       r.final = .IDLE ∧ r.reported = some .STANDBY ∧ r.err = .rejected := by decide
 
 example :
-    let r := runFMQ false true .RESET .CONFIGURED [.done, .done]
+    let r := runFMQ codeCfg true .RESET .CONFIGURED [.done, .done]
     noStale true r = true ∧ noLoss true r = true ∧ r.final = .IDLE ∧ r.reported = some .STANDBY ∧ r.err = .nil := by
   decide
 
 /-- …and of `C16_rollback_reaches_source`: RESET DEVICE refused, INIT TASK roll-back performed. -/
 example :
-    let r := runFMQ false true .RESET .CONFIGURED [.done, .refused, .done]
+    let r := runFMQ codeCfg true .RESET .CONFIGURED [.done, .refused, .done]
     calm r = true ∧ acceptsRollback (rollbackEvt .RESET) r = true ∧ r.final = .READY ∧ r.reported = some .CONFIGURED := by
+  decide
+
+/-- …and the hypothesis of `C16_unimplemented_refused_code` by both events; the answer the former code gave
+    differs exactly in the error. -/
+example :
+    implemented .GO_ERROR = false ∧ implemented .RECOVER = false ∧
+    (runFMQ codeCfg false .GO_ERROR .RUNNING []).err = .unimplemented ∧
+    (runFMQ legacyCfg false .GO_ERROR .RUNNING []).err = .nil ∧
+    (runFMQ legacyCfg false .GO_ERROR .RUNNING []).reported = (runFMQ codeCfg false .GO_ERROR .RUNNING []).reported := by
   decide
